@@ -33,6 +33,7 @@ def check(c: Check):
     clause_b(c)
     clause_c(c)
     clause_d(c)
+    clause_e(c)
     from .common import sweep_records
     sweep_records(c, 'C12-rec', ['exactly_lib.tcfs', 'exactly_lib.type_val_deps.types.path'], floor=5)
 
@@ -445,3 +446,88 @@ def _suffix_is_relative_guards(ix: Index) -> List[str]:
                 if f is not None and any(isinstance(x, ast.Raise) for x in ast.walk(f.node)):
                     out.append('%s:%d' % (m.relpath, n.lineno))
     return out
+
+
+# ---------------------------------------------------------------- e
+def clause_e(c: Check):
+    """`-rel SYMBOL` / leading path-symbol references: the path is the referenced path followed by the given suffix.
+    PLUMB + EVAL on _StackedPathDdv: `stacked(base, suffix)` stacks exactly (base, suffix); every value_* of the
+    stacked path is <the same value_* of the base> / <the suffix that was stacked> (not the combined suffix, which
+    already contains the base's own suffix); the combined suffix is used for reporting only"""
+    ix, fo = c.ix, c.fo
+    PD = 'exactly_lib.type_val_deps.types.path.path_ddvs'
+    st_f = ix.func(PD + ':stacked')
+    sp = ix.cls(PD + ':_StackedPathDdv')
+    names = [p.arg for p in st_f.positional_params()]
+    n = 0
+    for p in util.func_paths(ix, fo, st_f, Hooks()):
+        if p.kind != 'return':
+            continue
+        n += 1
+        con = util.constructed(ix, p.val)
+        ok = con is not None and con[0] == sp.key and len(con[1]) + len(con[2]) == 2
+        if ok:
+            init = ix.class_member(sp, '__init__')
+            pn = [p_.arg for p_ in init.positional_params()[1:]]
+            given = dict(zip(pn, con[1]))
+            given.update(con[2])
+            vals = [given.get(x) for x in pn]
+            ok = all(isinstance(v, Sym) and util.root_sym(v).origin and util.root_sym(v).origin[:2] == ('param', nm)
+                     and not util.attr_chain(v)[1] for v, nm in zip(vals, names))
+        c.expect(bool(ok), 'C12-e', 'stacked/stacks-the-given-path-and-suffix',
+                 'stacked(base, suffix) does not build the stacked path of exactly (base, suffix): %s' % util.describe(p.val),
+                 st_f.loc())
+    c.floor('C12-e', 'returning paths of stacked()', n, 1)
+
+    class H(Hooks):
+        def inline(self, fd, st):
+            return fd.cls is sp and fd.name.startswith('_stacked')
+
+    for meth in ('value_when_no_dir_dependencies', 'value_pre_sds', 'value_post_sds'):
+        f = ix.class_member(sp, meth)
+        it = Interp(ix, fo, H())
+        st = State()
+        obj = it.new_obj(sp)
+        base, own, combined = Sym('base-path'), Sym('stacked-suffix'), Sym('combined-suffix')
+        st.heap[(obj.oid, 'base_path')] = base
+        st.heap[(obj.oid, '_stacked_path_suffix')] = own
+        st.heap[(obj.oid, '_combined_path_suffix')] = combined
+        ok = False
+        for p in it.run_function(f, {}, st, recv=obj):
+            o = p.val.origin if p.kind == 'return' and isinstance(p.val, Sym) else None
+            if not (o and o[0] == 'op' and isinstance(p.val.node, ast.BinOp) and isinstance(p.val.node.op, ast.Div)):
+                continue
+            left, right = o[2]
+            lo = left.origin if isinstance(left, Sym) else None
+            left_ok = bool(lo) and lo[0] == 'call' and isinstance(lo[4].func, ast.Attribute) and lo[4].func.attr == meth \
+                      and util.attr_chain(p.trace[lo[5]].data.get('callee_val'))[0] is base if lo and lo[5] is not None else False
+            mentions_own = _mentions_value(right, own, 0, p.trace)
+            mentions_combined = _mentions_value(right, combined, 0, p.trace)
+            ok = bool(left_ok) and mentions_own and not mentions_combined
+        c.expect(ok, 'C12-e', '_StackedPathDdv.%s' % meth,
+                 'the %s of a stacked path is not <%s of the base path> / <the stacked suffix>' % (meth, meth), f.loc())
+
+
+def _mentions_value(v, target, depth=0, trace=None) -> bool:
+    """target occurs in the construction of v (arguments and receivers of the calls that produced it)"""
+    if v is target:
+        return True
+    if depth > 8 or not isinstance(v, Sym) or not v.origin:
+        return False
+    o = v.origin
+    if o[0] == 'call':
+        if any(_mentions_value(x, target, depth + 1, trace) for x in list(o[2]) + list(o[3].values())):
+            return True
+        if trace is not None and o[5] is not None:
+            ev = trace[o[5]]
+            recv = ev.data.get('recv')
+            if recv is None:
+                recv = ev.data.get('callee_val')
+            if recv is not None and _mentions_value(recv, target, depth + 1, trace):
+                return True
+        return False
+    for x in o[1:]:
+        for y in (x if isinstance(x, (list, tuple)) else [x]):
+            if isinstance(y, Sym) and _mentions_value(y, target, depth + 1, trace):
+                return True
+    return False
